@@ -4,7 +4,7 @@ import PyxelModel.Generated.C13
 /-! Line-protocol glue for C13.
 
 `{"op":"run","kind":"pixel","rows":3,"cols":4,"ops":[["set",<operand>],["update",<operand>|null],
-  ["iadd",<operand>],["set3",<operand>],["adopt",<operand>|null],["empty"],["read"],["read3"],["dtype"],["shape"]]}`
+  ["iadd",<operand>],["set3",<operand>],["adopt",<operand>|null],["emptyAll",bool],["empty"],["read"],["read3"],["dtype"],["shape"]]}`
   → `{"model":[{"out":"ok"|"TypeError"|…,"obs":…,"state":null|{…},"inv":bool}, …]}` (one entry per op)
 `{"op":"eq","a":<box>,"b":<box>}` → `{"model":bool,"spec":bool}`; a box is
   `{"kind":…,"rows":…,"cols":…,"st":null|{"is3d":bool,"shape":[…],"dt":"…","tok":"…"}}`
@@ -57,6 +57,7 @@ def decOp (j : Json) : R Op := do
     | "set3" => .ok (.set3 (← decOperand v))
     | "iadd" => .ok (.iadd (← decOperand v))
     | "update" => .ok (.update (← asOpt decOperand v))
+    | "emptyAll" => .ok (.emptyAll (← asBool v))
     | "adopt" => .ok (.adopt (← asOpt decOperand v))
     | s => .error s!"unknown unary op {s}"
   | _ => .error "op: expected [name] or [name, operand]"
@@ -66,6 +67,7 @@ def encContent : Content → Json
   | .clipped i => Json.arr #[Json.str "clip", ofNat i]
   | .plus c i => Json.arr #[Json.str "plus", encContent c, ofNat i]
   | .zeros => Json.arr #[Json.str "zeros"]
+  | .timesZero c => Json.arr #[Json.str "times0", encContent c]
 
 def encArr (a : Arr Content) : Json :=
   obj [("is3d", Json.bool a.is3d), ("shape", ofList ofNat a.shape), ("dt", Json.str a.dtype.name),
